@@ -28,7 +28,7 @@ c_QueryOn == FALSE
 c_J == 1
 c_EmitOps == {0}
 c_EmitMod == 61
-c_EmitRes == 2
+c_EmitRes == 0
 c_EmitSmall == 0
 c_EmitFilter == "all"
 ====
